@@ -1,5 +1,30 @@
-(* C15 — placeholder while the proofs are being written (examples only) *)
-Require Import Grits.Base Grits.ModeDefs Grits.Modes Grits.STypes Grits.Print.
-Example c15_smoke : print_type (TTensor (TTensor (TUnit Rep) (TUnit Rep) Rep) (TUnit Rep) Rep) = "(1 * 1) * 1".
-Proof. vm_compute. reflexivity. Qed.
-Print Assumptions c15_smoke.
+(* C15 — printed types are unambiguous: print then parse is the identity.
+   print_type is the model of SessionType.String() (compared byte for byte with Go on every run);
+   lex_ty / rd_type: the reference reader of spec/TypeReader.v (its agreement with the LALR parser
+   on printed types is validated on every run by feeding Go's String() output back through the
+   real parser).  String() does not print the modes of non-shift nodes: `norm m t` is the
+   representative of t that carries the pushed-down mode everywhere, `uniform m t` says t is
+   already that representative (what checkTypeModalities guarantees). *)
+Require Import Grits.Base Grits.ModeDefs Grits.Modes Grits.STypes Grits.Print Grits.EqualWF.
+Require Import Grits.spec.TypeReader Grits.proofs.ReaderProofs Grits.proofs.LexProofs Grits.proofs.PrintProofs.
+
+Theorem parse_print_type : forall t m,
+  uniform m t = true -> syn_ok t = true -> modes_wf t = true -> rd_type m (lex_ty (print_type t)) = Some t.
+Proof. exact LexProofs.parse_print_type. Qed.
+
+(* two types that print alike differ at most in the modes of non-shift nodes *)
+Theorem print_injective : forall s t m,
+  syn_ok s = true -> modes_wf s = true -> syn_ok t = true -> modes_wf t = true ->
+  print_type s = print_type t -> norm m s = norm m t.
+Proof. exact PrintProofs.print_injective. Qed.
+
+(* under the same head mode, two different mode-uniform types never print identically *)
+Theorem print_injective_uniform : forall s t m,
+  uniform m s = true -> uniform m t = true ->
+  syn_ok s = true -> modes_wf s = true -> syn_ok t = true -> modes_wf t = true ->
+  print_type s = print_type t -> s = t.
+Proof. exact PrintProofs.print_injective_uniform. Qed.
+
+Print Assumptions parse_print_type.
+Print Assumptions print_injective.
+Print Assumptions print_injective_uniform.
